@@ -33,11 +33,13 @@ Pool == {
 MCCatalogues == { <<>> } \cup { <<a>> : a \in Pool }
                 \cup (IF MaxReleases >= 2 THEN { <<p[1], p[2]>> : p \in { q \in Pool \X Pool : q[1].ver # q[2].ver } } ELSE {})
 MCRunnings == {V(1,0,0), V(2,0,12), 0}
+MCCmds     == {"self-update", "version"}
 MCFaults   == {"none", "list-500", "list-reset", "list-badjson", "asset-500", "asset-reset", "asset-truncate", "sums-500"}
 
-Outcome == IF out = "updated" THEN [exe |-> exe, ok |-> TRUE]
+Outcome == IF Cmd = "version" THEN [exe |-> 0, ok |-> TRUE, latest |-> IF out = "latest" THEN Catalogue[sel].ver ELSE 0]
+           ELSE IF out = "updated" THEN [exe |-> exe, ok |-> TRUE]
            ELSE IF out = "no-update" THEN [exe |-> 0, ok |-> TRUE]
            ELSE [exe |-> 0, ok |-> FALSE]
 ExportCase == (Export /\ pc = "done") =>
-    PrintT(ToJson([cat |-> Catalogue, running |-> Running, fault |-> Fault, allowed |-> Outcome, why |-> out]))
+    PrintT(ToJson([cat |-> Catalogue, running |-> Running, fault |-> Fault, cmd |-> Cmd, allowed |-> Outcome, why |-> out]))
 =============================================================================
